@@ -493,3 +493,79 @@ pub fn run_claims<S: MdkStorageProvider + Sync>(s: &S, u: &Universe, threads: us
     }
     report
 }
+
+/// Rollback under readers: one thread loops {create_group_snapshot; rollback_group_to_snapshot} on a
+/// quiescent group - a no-op in every sequential order - while reader threads keep reading that
+/// group. Every read must see the group as it is (record with its epoch, the complete relay set,
+/// the exporter secret, a listing that succeeds): a rollback that empties the group and refills it
+/// in two steps shows up as a missing / empty read.
+pub fn run_rollback_readers<S: MdkStorageProvider + Sync>(s: &S, u: &Universe, iterations: usize, readers: usize, seed: u64) -> StressReport {
+    let mut report = StressReport::default();
+    let g = 1usize;
+    let gid = u.gid(g);
+    let spec = GroupSpec { g, nid: 0, nid_of: None, name: 0, desc: 0, admins: 1, epoch: 7, state: 0, img: 0, last: None, su: 1 };
+    if s.save_group(spec.build(u)).is_err() {
+        report.violations.push(("rollback-readers-init-failed".into(), "save_group".into()));
+        return report;
+    }
+    let mut sec = secret(u, g, 0, 0);
+    sec.secret = mdk_storage_traits::Secret::new([7u8; 32]);
+    let _ = s.save_group_exporter_secret(sec);
+    let want_relays = relay_set(0x77);
+    let _ = s.replace_group_relays(&gid, want_relays.clone());
+    let done = AtomicBool::new(false);
+    let viol: std::sync::Mutex<Vec<(String, String)>> = std::sync::Mutex::new(vec![]);
+    let reads = AtomicU64::new(0);
+    std::thread::scope(|sc| {
+        let (done, viol, reads, gid, want_relays) = (&done, &viol, &reads, &gid, &want_relays);
+        sc.spawn(move || {
+            for k in 0..iterations {
+                let name = format!("rr-{seed:x}-{k}");
+                if s.create_group_snapshot(gid, &name).is_ok() && s.rollback_group_to_snapshot(gid, &name).is_err() {
+                    viol.lock().unwrap().push(("rollback-readers-rollback-failed".into(), format!("iteration {k}")));
+                }
+                if k % 7 == 0 {
+                    std::thread::yield_now();
+                }
+            }
+            done.store(true, Ordering::SeqCst);
+        });
+        for _ in 0..readers {
+            sc.spawn(move || {
+                let mut n = 0u64;
+                while !done.load(Ordering::SeqCst) && n < (iterations as u64) * 60 {
+                    n += 1;
+                    let bad: Option<(&str, String)> = match n % 4 {
+                        0 => match s.find_group_by_mls_group_id(gid) {
+                            Ok(Some(grp)) if grp.epoch == 7 => None,
+                            other => Some(("group-record", format!("{:?}", other.map(|o| o.map(|x| x.epoch))))),
+                        },
+                        1 => match s.group_relays(gid) {
+                            Ok(set) if relay_tags(&set) == [0x77u64].into_iter().collect() && set.len() == want_relays.len() => None,
+                            other => Some(("relays", format!("{:?}", other.map(|x| x.len())))),
+                        },
+                        2 => match s.get_group_exporter_secret(gid, 0) {
+                            Ok(Some(_)) => None,
+                            other => Some(("exporter-secret", format!("{:?}", other.map(|x| x.is_some())))),
+                        },
+                        _ => match s.all_groups() {
+                            Ok(v) if v.iter().any(|x| &x.mls_group_id == gid) => None,
+                            other => Some(("group-list", format!("{:?}", other.map(|x| x.len())))),
+                        },
+                    };
+                    if let Some((what, saw)) = bad {
+                        let mut v = viol.lock().unwrap();
+                        if v.len() < 5 {
+                            v.push((format!("rollback-visible-half-done|{what}"), format!("while another thread took and restored a snapshot of a quiescent group, a reader saw {what} = {saw}")));
+                        }
+                    }
+                }
+                reads.fetch_add(n, Ordering::SeqCst);
+            });
+        }
+    });
+    report.violations.extend(viol.into_inner().unwrap());
+    report.histories_ops += iterations as u64 * 2;
+    report.reads += reads.load(Ordering::SeqCst);
+    report
+}
